@@ -58,6 +58,9 @@ Pool ==
     With(Base, "matrix", "setup_os"), With(Base, "matrix", "setup_os_eadj"), With(Base, "matrix", "setup_os_erem"), With(Base, "matrix", "adj_base_erem"),
     \* a matrix without dimensions whose one adjustment only says skip: true / false / a reason / no matrix at all are four contents
     With(Base, "matrix", "skiponly_t"), With(Base, "matrix", "skiponly_f"), With(Base, "matrix", "skiponly_s"),
+    \* one shadowed pipeline variable among many that are not: all the others are signed, on every run
+    [With(Base, "env", E(FALSE, ("A" :> "1"))) EXCEPT !.penv = ("A" :> "pa") @@ ("B" :> "pb") @@ ("C" :> "pc") @@ ("D" :> "pd") @@ ("E" :> "pe") @@ ("F" :> "pf") @@ ("G" :> "pg")],
+    [With(Base, "env", E(FALSE, ("A" :> "1"))) EXCEPT !.penv = ("A" :> "pa") @@ ("B" :> "pb") @@ ("C" :> "pc") @@ ("D" :> "pd") @@ ("E" :> "pe") @@ ("F" :> "pf") @@ ("G" :> "other")],
     \* a pipeline variable whose value is EMPTY is a signed variable like any other: present-and-empty, absent, and another name
     [Base EXCEPT !.penv = ("B" :> "")], [Base EXCEPT !.penv = ("C" :> "")], [Base EXCEPT !.penv = ("B" :> "") @@ ("C" :> "")],
     \* a number and the string of its digits are different values, however large
